@@ -249,6 +249,16 @@ def roundtrip_and_resume(run, tier, rng, work):
                 run.fail("resume-not-continuing", f"beta / call counter do not continue monotonically: betas={betas}, calls={calls}", **w2)
             logw, logz = s3.state.compute_logw_and_logz(1.0)
             ess = float(effective_sample_size(np.exp(logw - np.max(logw))))
+            # the caller of the resumed run may ask for more samples than the checkpointed run did
+            s4 = make(cfg, work / f"cfg{ci}_resume{k}_more")
+            try:
+                s4.run(n_total=120, progress=False, resume_state_path=outdir / f"ck_{k}.state")
+                lw4, _ = s4.state.compute_logw_and_logz(1.0)
+                ess4 = float(effective_sample_size(np.exp(lw4 - np.max(lw4))))
+                if ess4 < 120:
+                    run.fail("resume-postconditions", f"run(n_total=120, resume from a checkpoint written by run(n_total=48)) returned with posterior ESS {ess4}", **w2)
+            except Exception as e:
+                run.fail("resume-raises", f"resume with a larger n_total raised {type(e).__name__}: {e}", **w2)
             if not (1 - betas[-1] < 1e-4 and ess >= 48 and abs(s3.evidence()[0] - logz) < 1e-9 * max(1, abs(logz))):
                 run.fail("resume-postconditions", f"resumed run ended with beta={betas[-1]}, ESS={ess}, evidence={s3.evidence()[0]} vs {logz}", **w2)
     run.sample(dict(kind="roundtrip", cfgs=[str(c) for c in cfgs], checkpoints_first_cfg=len(snaps)))
@@ -310,6 +320,26 @@ def crash_injection(run, tier, work):
         its = got["_current"].get("iter")
         if its not in (1, 3):
             run.fail("checkpoint-neither-old-nor-new", f"after a crash the final name holds iteration {its}", **what)
+    # power loss right after the rename: only bytes handed to the OS before the last fsync survive
+    d, p = launch(0, 0.0, "powerloss")
+    out, _ = p.communicate(timeout=300)
+    run.case(key=("powerloss",), nontrivial=True)
+    if p.returncode != 17:
+        # a save that never renames (direct write) is reported by the crash points above
+        if "POWERLOSS" not in out and not any(e.startswith(("replace:", "rename:")) for e in events):
+            pass
+        else:
+            run.broken.append(("crash-driver-powerloss", f"exit {p.returncode}: {out[-400:]}"))
+    else:
+        final = d / "ckpt.state"
+        try:
+            with open(final, "rb") as f:
+                got = dill.load(f)
+            if got["_current"].get("iter") not in (1, 3):
+                run.fail("checkpoint-neither-old-nor-new", "after a power loss following the rename the final name holds neither checkpoint")
+        except Exception as e:
+            run.fail("renamed-before-durable", f"power loss right after the rename leaves an unloadable checkpoint under the final name "
+                     f"({type(e).__name__}; {out.strip().splitlines()[-1] if out.strip() else ''}): the temporary file was renamed before all of its bytes were fsynced")
     run.count("crash_points", len(points))
     run.sample(dict(kind="crash-injection", events=events, points=len(points)))
 
